@@ -21,7 +21,7 @@ K = 1e4
 @st.composite
 def _case(draw, planar):
     return {"poly": draw(gp.simple_polygon(max_n=24)), "emb": draw(gp.embedding(planar_only=planar)),
-            "perm": draw(zoo.noise(30))}
+            "perm": draw(zoo.noise(30)), "logs": draw(zoo.f(-8, 6)) if draw(st.integers(0, 3)) == 0 else 0.0}
 
 
 def _expected_normal(V, arg):
@@ -78,7 +78,9 @@ def _run(case, rec, planar):
     xy = gp.build_polygon_xy(case["poly"])
     e = case["emb"]
     em = gp.embed(xy, e)
-    V, arg = em["verts"], em["normal_arg"]
+    scale = 10.0 ** case.get("logs", 0.0)  # uniform scale 10^U(-8,6) in a quarter of the cases (tolerances are scale-free)
+    xy = xy * scale
+    V, arg = em["verts"] * scale, em["normal_arg"]
     nexp = _expected_normal(V, arg)
     o0 = geom.polygon_moments(V, nexp)
     cw_about_normal = o0["signed_area"] < 0
@@ -91,7 +93,7 @@ def _run(case, rec, planar):
     rec.concrete = {"vertices": V, "normal": arg if arg is None else list(map(float, arg))}
     rec.label("kind:" + kind, "cw_about_normal" if cw_about_normal else "ccw_about_normal", "nonconvex" if not convex else "convex",
               "tilted" if not inplane else "inplane", "reflex_first" if default_flipped else None, "normal:" + e["normal"],
-              "plus_z" if plus_z else None)
+              "plus_z" if plus_z else None, "extreme_scale" if abs(case.get("logs", 0.0)) > 3 else None)
     rec.nontrivial = (not convex) or cw_about_normal or default_flipped or not inplane
     argc = arg.copy() if isinstance(arg, np.ndarray) else arg
     P = call(S.Polygon, V.copy(), argc) if arg is not None else call(S.Polygon, V.copy())
@@ -99,7 +101,8 @@ def _run(case, rec, planar):
         rec.fail("construct", dict(sig, type=P.type, kind=kind), msg=P.msg)
         return
     exact = None
-    if kind == "lattice" and planar and e["inplane"] == 0.0 and e["offset2"] == [0.0, 0.0]:
+    if kind in ("lattice", "lattice_free") and planar and e["inplane"] == 0.0 and e["offset2"] == [0.0, 0.0] and scale == 1.0 \
+            and np.array_equal(V[:, :2], np.round(V[:, :2])):  # (the generator's fallback polygon is not integer)
         ixy = [(int(round(a)), int(round(b))) for a, b in V[:, :2]]
         exact = geom.polygon_xy_moments_exact(ixy)
         rec.label("exact")
@@ -140,7 +143,7 @@ def _run(case, rec, planar):
 def clauses():
     return [
         Clause("polygon_any_plane", _case(False), lambda c, r: _run(c, r, False), quick=2000, thorough=60000, rule="see RULE",
-               floors={"cw_about_normal": 0.2, "nonconvex": 0.3, "tilted": 0.3, "reflex_first": 0.05}),
+               floors={"cw_about_normal": 0.2, "nonconvex": 0.3, "tilted": 0.3, "reflex_first": 0.02}),
         Clause("polygon_xy_plane", _case(True), lambda c, r: _run(c, r, True), quick=2000, thorough=60000,
                rule="same, polygon kept in the xy-plane so that planar moments are asserted; integer polygons exact",
                floors={"plus_z": 0.25, "Ixy<0": 0.05, "cw_about_normal": 0.2, "exact": 0.03}),
